@@ -33,12 +33,12 @@ VERSION = "8.3.0"
 def strategy(draw):
     used = set()
     spec = draw(gen_tab.sidecar_spec(VERSION, 1, 4, used=used, hed_column=True))
-    mode = draw(st.sampled_from(["tsv", "df"]))
+    mode = draw(st.sampled_from(["tsv", "df", "file"]))
     table = draw(gen_tab.table_for(spec, VERSION, used, onset=draw(st.booleans())))
     for row in table["rows"]:
         for i, c in enumerate(row):
             row[i] = c.replace('"', "q").replace("\t", " ")
-    if mode == "tsv" and len(table["header"]) == 1:
+    if mode in ("tsv", "file") and len(table["header"]) == 1:
         for row in table["rows"]:
             row[0] = row[0] or "n/a"
     edit = (draw(st.integers(0, 50)), draw(st.integers(0, 5)), draw(st.integers(0, 5))) if draw(st.booleans()) else None
@@ -54,6 +54,21 @@ def build(case):
     t = case["table"]
     if case["mode"] == "tsv":
         tab = TabularInput(io.StringIO(gen_tab.to_tsv(t)), sidecar=sidecar, name="tab")
+    elif case["mode"] == "file":
+        import os
+        import tempfile
+        fd, path = tempfile.mkstemp(suffix="_events.tsv", dir=os.environ.get("HOME"))
+        with os.fdopen(fd, "w", encoding="utf-8", newline="") as fp:
+            fp.write(gen_tab.to_tsv(t))
+        jpath = path[:-4] + ".json"
+        with open(jpath, "w", encoding="utf-8") as fp:
+            json.dump(doc, fp)
+        try:
+            tab = TabularInput(path, sidecar=jpath)       # both given as file names
+            sidecar = tab._sidecar
+        finally:
+            os.unlink(path)
+            os.unlink(jpath)
     else:
         df = pd.DataFrame(t["rows"], columns=t["header"], dtype=str)
         tab = TabularInput(df, sidecar=sidecar, name="tab")
@@ -82,7 +97,7 @@ def oracle(case):
     snap = snapshot(tab.dataframe)
     doc_before = copy.deepcopy(sidecar.loaded_dict)
     rows = t["rows"]
-    if case["mode"] == "tsv":
+    if case["mode"] in ("tsv", "file"):
         rows = [[("n/a" if c == "" else c) for c in r] for r in rows]   # what the documented TSV reading yields
     expected = gen_tab.reference_assemble(spec, t["header"], rows)
     refs = gen_tab.all_refs(spec) & set(t["header"])
